@@ -7,10 +7,20 @@ D = 'drivers/instantiate.cpp'
 ENV = dict(FIRENV)
 
 import z3 as _z3e
-EPSC = _z3e.Real('EPS')
-fn('dsplib::eps', 'lib/types.cpp', sig='dsplib::real_t ()', key='eps()', serves=['C12'], trusted=True, pure=True,
-   value='EPSC', extra_env={'EPSC': EPSC}, ensures=[('positive', 'result > 0')],
-   notes='floating-point relative accuracy: the positive constant EPS')
+from engine.prelude import NEXTUP as _NEXTUP
+EPSC = _NEXTUP(_z3e.RealVal(1)) - 1        # eps(): the spacing of doubles at 1.0
+
+
+def EPSD(v):
+    """eps(v): the spacing of doubles at v"""
+    v = getattr(v, 'z', v)
+    return _NEXTUP(v) - v
+
+
+fn('dsplib::eps', 'lib/types.cpp', sig='double (double)', key='eps(double)', serves=['C12', 'C01'], pure=True, throws='False',
+   extra_env={'EPSD': EPSD}, ensures=[('spacing', 'result == EPSD(v)'), ('positive', 'result > 0')])
+fn('dsplib::eps', 'lib/types.cpp', sig='dsplib::real_t ()', key='eps()', serves=['C12'], pure=True, throws='False',
+   extra_env={'EPSC': EPSC}, ensures=[('spacing_at_one', 'result == EPSC'), ('positive', 'result > 0')])
 
 LMS_OK = 'And(_len >= 2, _u.len == _len - 1, _w.len == _len)'
 
